@@ -158,7 +158,7 @@ def nextAt (C : Codec) (tol : Bool) (f : ByteArray) (block off : Nat) (fuel : Na
       if t = 0 ∨ t = 3 then .ok (p, H + p.size, block, off + H + p.size)
       else match nextAt C tol f (block+1) 0 fuel with
         | .ok (q, n, b', o') => .ok (p ++ q, H + p.size + n, b', o')
-        | .eof => .eof
+        | .eof => if tol then .eof else .err     -- `endOfLog`: the log ends inside a record — only a tolerant reader calls that the end
         | .err => .err
     | .eof => .eof
     | .err => .err
